@@ -62,7 +62,64 @@ struct IoFault : Profile {
     }
     std::vector<std::string> required_probes() const override { return {"faulty-runs", "fault-reported", "fault-harmless"}; }
 
-    Plan generate(Rng &rng, bool thorough, uint64_t) override
+    // The first cases of every batch are directed programs, one per storage layout: create the object, close, open again,
+    // read it, rewrite it, read it, close.  Every layout's create, fetch, write-back and release paths then meet every
+    // fault in every batch, however small (a random program reads a chunked dataset back only now and then).
+    static const int NDIRECTED = 14;
+    static void directed(std::vector<Op> &ops, Rng &r, int t)
+    {
+        int64_t ds = (int64_t)(r.next() >> 16), ds2 = (int64_t)(r.next() >> 16);
+        auto    sd = [&](const char *kind, int64_t a6, int64_t a7) {
+            if (a7 >= 0)
+                ops.push_back(mkop(0, kind, {0, 1 + (int64_t)r.below(2), 2 + (int64_t)r.below(4), (int64_t)r.below(5), (int64_t)r.below(3), ds, a6, a7}));
+            else
+                ops.push_back(mkop(0, kind, {0, 1 + (int64_t)r.below(2), 2 + (int64_t)r.below(4), (int64_t)r.below(5), (int64_t)r.below(3), ds, a6}));
+            ops.push_back(mkop(0, "end", {}));
+            ops.push_back(mkop(0, "sdread", {0}));
+            ops.push_back(mkop(0, "sdwrite", {0, ds2}));
+            ops.push_back(mkop(0, "sdread", {0}));
+        };
+        if (t < 4)
+            sd("sdnew", t, -1); // plain, unlimited, chunked, deflate
+        else if (t < 9)
+            sd("sdnew2", 0, t - 4); // chunked+deflate, RLE, skipping Huffman, n-bit, external
+        else if (t == 9 || t == 10) {
+            int64_t lk = t == 9 ? 1 : 0;
+            if (lk)
+                ops.push_back(mkop(0, "hlink", {1, 0, 0, 30, ds, 7, 2}));
+            else
+                ops.push_back(mkop(0, "hput", {0, 0, 0, 30, ds}));
+            ops.push_back(mkop(0, "hput", {0, 1, 1, 10, ds2})); // something behind it, so that growth means promotion
+            ops.push_back(mkop(0, "end", {}));
+            ops.push_back(mkop(0, "hread", {lk, 0, 0}));
+            ops.push_back(mkop(0, "happend", {lk, 0, 0, 40, ds2}));
+            ops.push_back(mkop(0, "hread", {lk, 0, 0}));
+        }
+        else if (t == 11) {
+            ops.push_back(mkop(0, "vsnew", {0, 20, 2, ds, 16}));
+            ops.push_back(mkop(0, "vgnew", {0, 5}));
+            ops.push_back(mkop(0, "end", {}));
+            ops.push_back(mkop(0, "vsread", {0}));
+            ops.push_back(mkop(0, "vsappend", {0, 25, 0, ds2}));
+            ops.push_back(mkop(0, "vsread", {0}));
+            ops.push_back(mkop(0, "vgread", {0}));
+        }
+        else if (t == 12) {
+            ops.push_back(mkop(0, "grnew", {0, 4, 3, 1, ds}));
+            ops.push_back(mkop(0, "end", {}));
+            ops.push_back(mkop(0, "grread", {0}));
+        }
+        else {
+            ops.push_back(mkop(0, "annew", {0, 4242, 0, 0}));
+            ops.push_back(mkop(0, "annew", {2, 4243, 0, 0}));
+            ops.push_back(mkop(0, "end", {}));
+            ops.push_back(mkop(0, "anread", {0, 0}));
+            ops.push_back(mkop(0, "anread", {2, 0}));
+        }
+        ops.push_back(mkop(0, "end", {}));
+    }
+
+    Plan generate(Rng &rng, bool thorough, uint64_t run) override
     {
         Plan p;
         p.seed              = rng.next();
@@ -72,6 +129,10 @@ struct IoFault : Profile {
         p.knobs["cacheoff"] = kr.chance(0.3) ? 1 : 0;
         p.knobs["bufsize"]  = kr.range(16, 600);
         Rng r               = rng.sub(2);
+        if (run < (uint64_t)NDIRECTED) {
+            directed(p.ops, r, (int)run);
+            return p;
+        }
         // a program concentrates on one or two interfaces so that event traces stay short
         static const int fams[] = {0, 1, 2, 3, 4};
         int fam1 = fams[r.below(5)], fam2 = r.chance(0.5) ? fams[r.below(5)] : fam1;
